@@ -22,6 +22,7 @@ type RPCase struct {
 	InLogN  int        `json:"inLogN"` // ring degree of the ciphertexts given to repack (MinLogN..LogN)
 	CtLevel int        `json:"ctLevel"`
 	LogGap  int        `json:"logGap,omitempty"` // expand: output gap; pack: inputLogGap
+	NoZero  bool       `json:"noZero,omitempty"` // pack: zeroGarbageSlots = false
 	Twice   bool       `json:"twice,omitempty"`  // the operation is run a second time on the same evaluator with fresh inputs
 	Seed    uint64     `json:"seed"`
 }
@@ -110,10 +111,29 @@ func genRP(t *rapid.T) RPCase {
 		c.LogGap = rapid.IntRange(0, c.Params.LogN).Draw(t, "expandLogGap")
 	case "pack":
 		c.LogGap = rapid.IntRange(1, c.Params.LogN).Draw(t, "packLogGap")
+		c.NoZero = rapid.Bool().Draw(t, "packNoZero")
 		set := map[int]bool{}
-		k := rapid.IntRange(1, 6).Draw(t, "packCount")
-		for i := 0; i < k; i++ {
-			set[rapid.IntRange(0, (1<<c.LogGap)-1).Draw(t, fmt.Sprintf("packIdx%d", i))] = true
+		G := 1 << c.LogGap
+		switch rapid.IntRange(0, 3).Draw(t, "packIdxKind") {
+		case 0: // a few arbitrary positions
+			k := rapid.IntRange(1, 6).Draw(t, "packCount")
+			for i := 0; i < k; i++ {
+				set[rapid.IntRange(0, G-1).Draw(t, fmt.Sprintf("packIdx%d", i))] = true
+			}
+		case 1: // a single index
+			set[rapid.IntRange(0, G-1).Draw(t, "packSingle")] = true
+		case 2: // all the multiples of 2^v (v = 0: every index; all even; all multiples of 4; ...)
+			v := rapid.IntRange(0, c.LogGap-1).Draw(t, "packVal")
+			for i := 0; i < G; i += 1 << v {
+				set[i] = true
+			}
+		default: // 0 and some multiples of 2^v
+			v := rapid.IntRange(0, c.LogGap-1).Draw(t, "packVal")
+			set[0] = true
+			k := rapid.IntRange(1, 5).Draw(t, "packCount")
+			for i := 0; i < k; i++ {
+				set[rapid.IntRange(0, (G>>v)-1).Draw(t, fmt.Sprintf("packMul%d", i))<<v] = true
+			}
 		}
 		c.Idx = nil
 		for i := range set {
@@ -211,7 +231,8 @@ func runRPInner(c RPCase, rec *h.Rec) error {
 	type cmp struct {
 		name      string
 		got, want []*big.Int
-		only0     bool // compare the constant coefficient only
+		only0     bool   // compare the constant coefficient only
+		mask      []bool // if set: compare these positions only
 	}
 	var cmps []cmp
 	zero := func(n int) []*big.Int {
@@ -239,7 +260,7 @@ func runRPInner(c RPCase, rec *h.Rec) error {
 			for i := range we {
 				we[i], wo[i] = m[2*i], m[2*i+1]
 			}
-			cmps = append(cmps, cmp{"even", dec(ev), we, false}, cmp{"odd", dec(od), wo, false})
+			cmps = append(cmps, cmp{"even", dec(ev), we, false, nil}, cmp{"odd", dec(od), wo, false, nil})
 		case "merge":
 			n := 1 << (logN - 1)
 			me, mo := uniformVec(rng, n, Q), uniformVec(rng, n, Q)
@@ -251,7 +272,7 @@ func runRPInner(c RPCase, rec *h.Rec) error {
 			for i := 0; i < n; i++ {
 				w[2*i], w[2*i+1] = me[i], mo[i]
 			}
-			cmps = append(cmps, cmp{"merged", dec(ct), w, false})
+			cmps = append(cmps, cmp{"merged", dec(ct), w, false, nil})
 		case "extract", "extractNaive":
 			m := uniformVec(rng, 1<<logN, Q)
 			ct := enc(logN, m)
@@ -283,7 +304,7 @@ func runRPInner(c RPCase, rec *h.Rec) error {
 				}
 				w := zero(1 << minLogN)
 				w[0] = m[i]
-				cmps = append(cmps, cmp{fmt.Sprintf("idx%d", i), dec(o), w, c.Op == "extractNaive"})
+				cmps = append(cmps, cmp{fmt.Sprintf("idx%d", i), dec(o), w, c.Op == "extractNaive", nil})
 			}
 		case "repack", "repackNaive":
 			n := 1 << c.InLogN
@@ -326,7 +347,7 @@ func runRPInner(c RPCase, rec *h.Rec) error {
 			if ct.LogN() != logN {
 				return h.Failf("C04:packing:"+c.Op+":ring-degree", "logN=%d, want MaxLogN=%d", ct.LogN(), logN)
 			}
-			cmps = append(cmps, cmp{"packed", dec(ct), w, false})
+			cmps = append(cmps, cmp{"packed", dec(ct), w, false, nil})
 		case "expand":
 			ln := c.InLogN // Expand works inside one ring degree
 			n := 1 << ln
@@ -342,7 +363,7 @@ func runRPInner(c RPCase, rec *h.Rec) error {
 				}
 				w := zero(n)
 				w[0] = m[i]
-				cmps = append(cmps, cmp{fmt.Sprintf("idx%d", i), dec(o), w, false})
+				cmps = append(cmps, cmp{fmt.Sprintf("idx%d", i), dec(o), w, false, nil})
 			}
 		case "pack":
 			ln := c.InLogN
@@ -354,27 +375,55 @@ func runRPInner(c RPCase, rec *h.Rec) error {
 			G := 1 << g
 			cts := map[int]*rlwe.Ciphertext{}
 			w := zero(n)
+			var mask []bool
+			if c.NoZero {
+				// zeroGarbageSlots = false: only the packed positions j + k*2^g of the provided indexes are specified
+				mask = make([]bool, n)
+			}
+			var kept []int
 			for _, j := range c.Idx {
-				if j >= G {
-					continue
+				if j < G {
+					kept = append(kept, j)
 				}
-				m := uniformVec(rng, n, Q) // slots that are not multiples of 2^g are garbage, documented to be zeroed
+			}
+			// zeroGarbageSlots = false: the merging stops at the smallest power-of-two gap 2^L between the indexes; the
+			// ciphertexts whose index is not a multiple of it are discarded with the garbage slots (documented)
+			L, merged := minGapVal(kept), 0
+			for _, j := range kept {
+				m := uniformVec(rng, n, Q) // slots that are not multiples of 2^g are garbage
 				for k := 0; k < n; k += G {
 					w[j+k] = m[k]
+					if mask != nil && j&(1<<L-1) == 0 {
+						mask[j+k] = true
+					}
+				}
+				if j&(1<<L-1) == 0 {
+					merged++
 				}
 				cts[j] = enc(ln, m)
 			}
 			if len(cts) == 0 {
 				return nil
 			}
-			ct, err := eval.Pack(cts, g, true)
+			tag := "pack"
+			if c.NoZero {
+				tag = "pack-nozero"
+			}
+			ct, err := eval.Pack(cts, g, !c.NoZero)
 			if err != nil {
-				return h.Failf("C04:packing:pack:error", "Pack(inputLogGap=%d, idx=%v): %v", g, c.Idx, err)
+				if c.NoZero && (len(kept) == 1 || merged == 0) {
+					// documented errors: a single ciphertext leaves no merging step when the garbage slots are kept;
+					// no index is a multiple of the smallest gap
+					rec.Class("pack-nozero:documented-error")
+					return nil
+				}
+				return h.Failf("C04:packing:"+tag+":error", "Pack(inputLogGap=%d, zeroGarbageSlots=%v, idx=%v): %v", g, !c.NoZero, kept, err)
 			}
 			if ct == nil {
-				return h.Failf("C04:packing:pack:nil", "Pack(inputLogGap=%d, idx=%v) returned (nil, nil)", g, c.Idx)
+				msg := fmt.Sprintf("Pack(inputLogGap=%d, zeroGarbageSlots=%v, idx=%v) returned (nil, nil)", g, !c.NoZero, kept)
+				return h.Failf("C04:packing:"+tag+":nil", "%s", msg)
 			}
-			cmps = append(cmps, cmp{"packed", dec(ct), w, false})
+			cmps = append(cmps, cmp{tag, dec(ct), w, false, mask})
 		default:
 			return h.Failf("C04:harness:op", "unknown op %q", c.Op)
 		}
@@ -387,12 +436,24 @@ func runRPInner(c RPCase, rec *h.Rec) error {
 		if x.only0 {
 			d = d[:1]
 		}
+		if x.mask != nil {
+			d = append([]*big.Int{}, d...)
+			for i := range d {
+				if !x.mask[i] {
+					d[i] = new(big.Int)
+				}
+			}
+		}
 		nrm := h.InfNorm(d)
 		if nrm.Cmp(worst) > 0 {
 			worst = nrm
 		}
 		if nrm.Cmp(bound) > 0 {
 			key := "C04:packing:" + c.Op + ":noise-above-bound"
+			if c.Op == "pack" && c.NoZero {
+				key = "C04:packing:pack-nozero:noise-above-bound"
+			}
+			generic := key
 			switch {
 			case !s.NTT:
 				key = keyPackNonNTT
@@ -405,6 +466,9 @@ func runRPInner(c RPCase, rec *h.Rec) error {
 			}
 			msg := fmt.Sprintf("%s %s: |Dec - expected|_inf = 2^%d > bound 2^%d (log2 Q=%d, logN=%d, MinLogN=%d, idx=%v, key=%+v, level %d, ntt=%v)",
 				c.Op, x.name, nrm.BitLen(), bound.BitLen(), Q.BitLen(), logN, minLogN, c.Idx, c.Key, lvl, s.NTT)
+			if !h.IsKnown(key) {
+				key = generic // the class of a repaired finding is not special any more: report under the call site's own key
+			}
 			if rec.Known(key, msg) {
 				rec.Class("known=" + key)
 				return nil
@@ -414,6 +478,10 @@ func runRPInner(c RPCase, rec *h.Rec) error {
 	}
 
 	rec.Class("op=" + c.Op)
+	if c.Op == "pack" {
+		rec.Classf("pack:zeroGarbage=%v", !c.NoZero)
+		rec.Classf("pack:inputLogGap=%d/gapVal=%d", c.LogGap, minInt(minGapVal(c.Idx), 9))
+	}
 	rec.Classf("gapN=%d", c.GapN)
 	rec.Class(pClass(s))
 	rec.Class(wClass(c.Key.W))
@@ -469,6 +537,26 @@ func extractGapDefect(idx []int) bool {
 		return n
 	}
 	return v(minGap) > v(or)
+}
+
+// minGapVal is the 2-adic valuation of the smallest difference between consecutive (sorted) indexes; a single index has
+// no gap (valuation 62).
+func minGapVal(idx []int) int {
+	if len(idx) < 2 {
+		return 62
+	}
+	minGap := idx[1] - idx[0]
+	for i := 2; i < len(idx); i++ {
+		if d := idx[i] - idx[i-1]; d < minGap {
+			minGap = d
+		}
+	}
+	v := 0
+	for minGap&1 == 0 {
+		minGap >>= 1
+		v++
+	}
+	return v
 }
 
 const keyRepackSparse = "C04:packing:repack:sparse-index-set"
